@@ -161,7 +161,10 @@ def fs_to_text(desc):
         for f, j in sorted(n["content"].items()):
             c = desc[j]
             if c["content"]:
-                parts.append("%s=[%s]" % (f, txt(j)))
+                inner = txt(j)
+                if inner is None:
+                    return None
+                parts.append("%s=[%s]" % (f, inner))
             elif c["value"] is not None:
                 parts.append("%s=%s" % (f, c["value"]))
             else:
